@@ -316,6 +316,9 @@ fn react(led: &Led, kn: &Knobs, server: usize, health: Health, via: Via, req: &[
             if let Some(k) = k {
                 led.borrow_mut().tc_sent_for.push(k);
             }
+            // A truncated answer is retried over the stream whatever its
+            // rcode says (a truncated NXDOMAIN or SERVFAIL is still truncated).
+            let rcode = if kn.kind == Kind::DgramStream && sim::chance("peer.tc_rcode", 1, 3) { *sim::pick("peer.tc_rcode_which", &[Rcode::NXDOMAIN, Rcode::SERVFAIL, Rcode::REFUSED]) } else { rcode };
             r.out.push((dns::mk_reply(req, t, true, rcode).expect("reply"), base_delay));
         }
         Act::CloseBefore => {
